@@ -519,6 +519,10 @@ func (m *btModel) step(op btOp, resp btResp, nowUs int64) (kind string, msg stri
 			}
 			return "", ""
 		}
+		if !resp.ok() && strings.Contains(op.Parent, "/tables/") {
+			// a parent that is itself a table name is not an instance: may be refused
+			return "", ""
+		}
 		if !resp.ok() && (strings.HasSuffix(op.TableID, ".table.proto") || strings.HasSuffix(op.TableID, ".table.proto.tmp")) {
 			// an id that ends like the disk engine's own file names may be refused (since
 			// repair "table ids with the suffix .table.proto are reserved"); where it is
@@ -554,7 +558,8 @@ func (m *btModel) step(op btOp, resp btResp, nowUs int64) (kind string, msg stri
 		}
 		var want []string
 		for _, n := range m.tableNames() {
-			if strings.HasPrefix(n, op.Parent+"/tables/") {
+			// exactly the tables of that parent: <parent>/tables/<id>, the id holding no slash
+			if rest := strings.TrimPrefix(n, op.Parent+"/tables/"); rest != n && !strings.Contains(rest, "/") {
 				want = append(want, n)
 			}
 		}
